@@ -1396,8 +1396,10 @@ def r_execute_optional(ctx: Ctx, rule="R03.6"):
         # no guard at all: if nothing ever awaits the result of the call, a coroutine callback is created and dropped - a violation;
         # some other way of telling (isawaitable(result), ...) is beyond this rule
         any_await = [m for m in g.nodes if m.pred and m.op == "await" and any(V.trace(m.func, m.env, m.ast.value)[2] is u.ast for u in ucalls)]
-        rep.ob(rule, "coroutine functions are recognised (iscoroutinefunction guard)", None if any_await else False, func=f, construct="(no iscoroutinefunction test)",
-               detail="" if any_await else "the result of calling the callback is never awaited: an `async def` callback is called, its coroutine dropped, and never runs")
+        rep.ob(rule, "whether a callback is awaited is decided by iscoroutinefunction(function) alone", False, func=f, construct="(no iscoroutinefunction test)",
+               detail="what a plain callback returns is awaited whenever it happens to be awaitable (a Future / Task it hands back): the task then sits in its "
+                      "callback until that completes - with its slot, or its place in the cancelled registry, held" if any_await else
+                      "the result of calling the callback is never awaited: an `async def` callback is called, its coroutine dropped, and never runs")
         return
     is_coro = guard_branch("iscoroutinefunction", True)
 
@@ -1412,6 +1414,19 @@ def r_execute_optional(ctx: Ctx, rule="R03.6"):
         # with iscoroutinefunction(function) true, every way from the call to a normal return awaits its result
         escaped = g.exit in reach(copies, both, avoid=awaits)
         rep.ob(rule, "under the coroutine-function guard the call is awaited (the callback runs to completion)", bool(awaits) and not escaped, node=u)
+    # ... and only there: what a plain callback returns is not the pool's to wait for
+    not_coro = guard_branch("iscoroutinefunction", False)
+
+    def plain(a: Node, b: Node, lab: Label) -> bool:
+        return lab[0] in NORMAL_KINDS and is_callable(a, b, lab) and not_coro(a, b, lab)
+
+    plain_reach = reach([g.entry], plain)
+    for u in ctx.distinct_sites([u for u in ucalls if u in plain_reach]):
+        # (awaiting a coroutine helper of the package that *returns* the call's result is not awaiting that result)
+        aw = [m for m in g.nodes if m.op == "await" and m in plain_reach and not (m.awaited is not None and m.awaited.kind == "pkg") and
+              (V.trace(m.func, m.env, m.ast.value)[2] is u.ast or any(x[2] is u.ast for x in V.leaves(m.func, m.env, m.ast.value)))]
+        rep.ob(rule, "the result of a plain (not coroutine-function) callback is not awaited", not aw, node=u,
+               detail="" if not aw else "a Future / Task a plain callback hands back would keep the task inside its callback until it completes")
 
 
 # ------------------------------------------------------------------ spawner registries
